@@ -2,6 +2,6 @@ package main
 
 func init() {
 	props["C21"] = &propCfg{Engine: "dbsim", Test: "TestC21", Level: "exploration",
-		Quick:    tierCfg{Runs: 4800, BudgetS: 120},
-		Thorough: tierCfg{Runs: 160000, JobSize: 2500, BudgetS: 1500}}
+		Quick:    tierCfg{Runs: 3200, BudgetS: 120},
+		Thorough: tierCfg{Runs: 400000, JobSize: 5000, BudgetS: 1500}}
 }
